@@ -12,7 +12,7 @@ down. What the hints *say* is, label by label, the proper nesting `Bal` of their
 mark closes the latest still-open opening of that label, whatever its sign), a hint alone on a
 line being an addition opened on the first line and closed on the last one.
 -/
-import Paroxy.Proofs.HintsPrepare
+import Paroxy.Proofs.HintsCore2
 import Paroxy.Proofs.HintsMalformed
 import Paroxy.Proofs.GlueCount
 namespace Paroxy.Props.C12
@@ -30,43 +30,57 @@ def linesOk (d : Decorated) : Bool :=
 /-- **C12 (round trip).** For every decorated program `d` — code lines with trailing hints in any
 tolerated spelling (`+` optional, `…`, several spaces, several hints per line), hints alone on a
 line anywhere, **each marker spelled freely** (`#`, spaces, `paroxython` in any case, spaces, `:`,
-spaces or none), **blank lines allowed at both ends of the text** — whose lines are hygienic
-(`linesOk`), whose marks are, label by label, properly nested (`Bal`, LIFO):
+spaces or none), **blank lines anywhere**, in particular at both ends of the text and between a
+hint alone on a line and the code — whose lines are hygienic (`linesOk`), which has a code line
+that is not blank, and whose marks are, label by label, properly nested (`Bal`, LIFO):
 `get_program (decorateS d)` succeeds; the stored source is the program without its hints and
-without its blank end lines (`base (normalised d)`); the scheduled additions / deletions are, as
-multisets per label, exactly the spans the nesting names, numbered on the lines of that stored
-source.
+without its blank end lines (`base (normalised d)`, stripped by `str.strip()`, i.e. minus the
+indentation of its first line if any); the scheduled additions / deletions are, as multisets per
+label, exactly the spans the nesting names, numbered on the lines of that stored source.
 
-Hypotheses still genuinely needed on the repaired tree (`hygienic (normalised d)` beyond `linesOk`):
-* the first code line left after trimming is not blank and the last one is not blank: false only
-  when a hint alone on a line stands before (after) a blank line at the very beginning (end) of the
-  text — there the repaired code still numbers the blank line (`C12_roundtrip_counterexample`);
-* the first code line is not indented (`str.strip()` of the stored source; not valid Python anyway);
-* `noTie`: no label opened for addition and deletion on the same line — on such a tie the code
-  closes the addition first whatever the order of the two openings on the line, which is the
-  LIFO reading of `-L... L...` but not of `L... -L...`. -/
+The only hypothesis left beyond hygiene and proper nesting is `noTie`: no label opened for addition
+and deletion on the same line — on such a tie the code closes the addition first whatever the order
+of the two openings on the line, which is the LIFO reading of `-L... L...` but not of `L... -L...`
+(`C12_roundtrip_needs_noTie`). -/
 theorem C12_roundtrip (d : List (Line × MarkerStyle)) (r : Str → List SSpan)
     (hlines : linesOk (d.map Prod.fst) = true)
-    (hyg : hygienic (normalised d) = true)
+    (hcode : (codeLines (normalised d)).isEmpty = false)
     (hbal : ∀ L, Bal (events (normalised d) L) (r L))
     (hnotie : ∀ L, noTie (events (normalised d) L) = true) :
-    ∃ p, getProgram (decorateS d) = .ok p ∧ p.source = joinNL (base (normalised d)) ∧
+    ∃ p, getProgram (decorateS d) = .ok p ∧ p.source = stripPy (joinNL (base (normalised d))) ∧
       (∀ L s e, p.addition.count L (s, e) = (r L).count (false, s, e)) ∧
       (∀ L s e, p.deletion.count L (s, e) = (r L).count (true, s, e)) := by
-  have hy := hyg_of _ hyg
-  have hprep := prepare_decorateS d (linesOk_of _ hlines) hy.ne
+  have hok := linesOk_of _ hlines
+  obtain ⟨okt, hwt⟩ := trimmed_ok d hok
+  have hne2 : codeLines (core2 (trimmed d)) ≠ [] := by simpa [normalised] using hcode
+  have hne1 : codeLines (trimmed d) ≠ [] := by
+    intro e
+    apply hne2
+    have hsub := core2_sublist (trimmed d)
+    cases hc : codeLines (core2 (trimmed d)) with
+    | nil => rfl
+    | cons c t =>
+      have : c ∈ codeLines (trimmed d) :=
+        (mem_codeLines_iff _ c).mpr (hsub.subset ((mem_codeLines_iff _ c).mp (by rw [hc]; simp)))
+      rw [e] at this; cases this
+  have hprep := prepare_decorateS d hok hne1
+  have hy : Hyg (normalised d) := hyg_core2 (trimmed d) okt hwt hne2
   obtain ⟨p, h1, h2, h3, h4⟩ :=
     getProgram_decorate (normalised d) r hy hbal (fun L => noTie_of _ (hnotie L))
-  exact ⟨p, by rw [getProgram, hprep]; exact h1, h2, fun L s e => h3 L (s, e), fun L s e => h4 L (s, e)⟩
+  refine ⟨p, ?_, h2, fun L s e => h3 L (s, e), fun L s e => h4 L (s, e)⟩
+  rw [getProgram, hprep]
+  unfold getProgramFrom at h1 ⊢
+  rw [centrifugate_core2 (trimmed d) okt hwt hne2]
+  exact h1
 
 /-- **C12 (marker spelling).** `# paroxython:` is neither space- nor case-sensitive: whatever the
 spelling of each marker, `get_program` answers as for the normalised spelling. -/
 theorem C12_marker_tolerance (d : List (Line × MarkerStyle))
-    (hlines : linesOk (d.map Prod.fst) = true) (hne : (codeLines (normalised d)).isEmpty = false) :
+    (hlines : linesOk (d.map Prod.fst) = true) (hne : (codeLines (trimmed d)).isEmpty = false) :
     getProgram (decorateS d) = getProgram (decorateS (d.map fun p => (p.1, {}))) := by
-  have hne' : codeLines (normalised d) ≠ [] := by simpa using hne
-  have e : normalised (d.map fun p => (p.1, ({} : MarkerStyle))) = normalised d := by
-    simp [normalised, List.map_map, Function.comp_def]
+  have hne' : codeLines (trimmed d) ≠ [] := by simpa using hne
+  have e : trimmed (d.map fun p => (p.1, ({} : MarkerStyle))) = trimmed d := by
+    simp [trimmed, List.map_map, Function.comp_def]
   have h1 := prepare_decorateS d (linesOk_of _ hlines) hne'
   have h2 := prepare_decorateS (d.map fun p => (p.1, ({} : MarkerStyle)))
     (by simpa [List.map_map, Function.comp_def] using linesOk_of _ hlines) (by rw [e]; exact hne')
@@ -140,7 +154,7 @@ def manualExample : List (Line × MarkerStyle) :=
 /-- Non-vacuity of `C12_roundtrip`: the example is hygienic, and its marks are properly nested
 (shown for the four labels it mentions; for every other label there is no mark at all). -/
 example : linesOk (manualExample.map Prod.fst) = true := by decide
-example : hygienic (normalised manualExample) = true := by decide
+example : (codeLines (normalised manualExample)).isEmpty = false := by decide
 example : balSpans (events (normalised manualExample) "loop:for".toList) = some [(true, 1, 3)] := by decide
 example : balSpans (events (normalised manualExample) "amoeboid_protist".toList) = some [(false, 1, 3)] := by decide
 example : balSpans (events (normalised manualExample) "meta/topic/fun".toList) = some [(false, 1, 3)] := by decide
@@ -201,47 +215,47 @@ theorem C12_schedule_shape (src : Str) (p : Program) (h : getProgram src = .ok p
             exact ⟨(hshape _).1, (hshape _).1, (hshape _).2, (hshape _).2⟩
       · cases hcol
 
-/-- The residual first/last-line hypothesis cannot be dropped on the repaired tree: here is the
-round-trip statement for normalised spellings without `firstOk` / `lastOk` … -/
-def C12_roundtrip_without_end_hypotheses : Prop :=
+/-- `noTie` cannot be dropped: here is the round-trip statement (normalised spellings) without it … -/
+def C12_roundtrip_without_noTie : Prop :=
   ∀ (d : Decorated) (r : Str → List SSpan),
-    (linesOk d && !(codeLines d).isEmpty) = true →
-    (∀ L, Bal (events d L) (r L)) → (∀ L, noTie (events d L) = true) →
-    ∃ p, getProgram (decorate d) = .ok p ∧ p.source = joinNL (base d) ∧
+    (linesOk d && hygienic d) = true → (∀ L, Bal (events d L) (r L)) →
+    ∃ p, getProgram (decorate d) = .ok p ∧
       (∀ L s e, p.addition.count L (s, e) = (r L).count (false, s, e)) ∧
       (∀ L s e, p.deletion.count L (s, e) = (r L).count (true, s, e))
 
 def foo : Str := ['f', 'o', 'o']
 
-def hintThenBlank : Decorated :=
-  [ .isolated 0 foo, .code { code := [] }, .code { code := ['x', ' ', '=', ' ', '1'] } ]
+def tieProgram : Decorated :=
+  [ .code { code := ['x'], hints := [⟨.opn false, foo, {}⟩, ⟨.opn true, foo, {}⟩] },
+    .code { code := ['y'], hints := [⟨.cls, foo, {}⟩] },
+    .code { code := ['z'], hints := [⟨.cls, foo, {}⟩] } ]
 
-/-- … and it is false: `# paroxython: foo`, a blank line, `x = 1`. The blank line is not at the
-beginning of the text, so it is not trimmed; it is numbered (foo on 1–2) and then stripped from the
-stored source (`x = 1`, one line). -/
-theorem C12_roundtrip_counterexample : ¬ C12_roundtrip_without_end_hypotheses := by
+/-- … and it is false: `x # paroxython: foo... -foo...`, `y # paroxython: ...foo`,
+`z # paroxython: ...foo`. Proper nesting (LIFO) closes the deletion on line 2 and the addition on
+line 3; the code, on the tie of line 1, closes the addition first (addition 1–2, deletion 1–3). -/
+theorem C12_roundtrip_needs_noTie : ¬ C12_roundtrip_without_noTie := by
   intro h
-  let r : Str → List SSpan := fun L => if L = foo then [(false, 1, 2)] else []
-  have hev : ∀ L, events hintThenBlank L = if L = foo then [Ev.opn false 1, Ev.cls 2] else [] := by
+  let r : Str → List SSpan := fun L => if L = foo then [(true, 1, 2), (false, 1, 3)] else []
+  have hev : ∀ L, events tieProgram L =
+      if L = foo then [Ev.opn false 1, Ev.opn true 1, Ev.cls 2, Ev.cls 3] else [] := by
     intro L
     by_cases hL : L = foo
     · subst hL; decide
-    · have h1 : (foo == L) = false := by simpa using fun e => hL e.symm
-      simp [events, hintThenBlank, codeLines, wholeLabels, eventsFrom, hintEvs, hL, h1]
-  obtain ⟨p, hp, hsrc, _⟩ := h hintThenBlank r (by decide)
+    · have h1 : ¬ foo = L := fun e => hL e.symm
+      simp [events, tieProgram, codeLines, wholeLabels, eventsFrom, hintEvs, hL, h1]
+  obtain ⟨p, hp, hadd, _⟩ := h tieProgram r (by decide)
     (by
       intro L; rw [hev L]
       by_cases hL : L = foo
-      · simp only [hL, if_true, r]; exact .pair (u := []) (w := []) .nil .nil
+      · simp only [hL, if_true, r]
+        exact .pair (u := [Ev.opn true 1, Ev.cls 2]) (w := []) (.pair (u := []) (w := []) .nil .nil) .nil
       · simp only [hL, if_false, r]; exact .nil)
-    (by
-      intro L; rw [hev L]
-      by_cases hL : L = foo <;> simp [hL, noTie])
-  have hreal : getProgram (decorate hintThenBlank) =
-      .ok ⟨['x', ' ', '=', ' ', '1'], [(foo, [(1, 2)])], []⟩ := by rfl
+  have hreal : getProgram (decorate tieProgram) =
+      .ok ⟨['x', '\n', 'y', '\n', 'z'], [(foo, [(1, 2)])], [(foo, [(1, 3)])]⟩ := by rfl
   rw [hreal] at hp
   cases hp
-  revert hsrc
+  have := hadd foo 1 2
+  revert this
   decide
 
 /-! ## Malformed hint comments -/
